@@ -4,8 +4,8 @@ C05 — property theorems about the interface model (all universally quantified)
 * `dtype_class_preserved`, `float_width_follows_flag`, `requested_width_kept`   — dtype policy
 * `reconcile_class_preserved`, `int_kept_or_int64`, `reconcile_faithful`,
   `reconcile_float_keeps_bound_width`                                          — output reconciliation
-* `prune_keeps_positional_partial`, `prune_order`, `prune_keeps_positional_REFUTED`,
-  `pruneFixed_keeps_positional`                                                  — input pruning
+* `prune_keeps_positional` (full strength), `prune_keeps_each`, `prune_length`, `prune_order`;
+  `oldRule_dropped_unused_nchw_input` is a labelled example about the rule before dfda5c9   — input pruning
 * `materialize_prefix`                                                         — input_params only append
 * `rename_exact`, `rename_injective` (= `rename_exact_and_injective`), `rename_keeps_ids` — custom names
 -/
@@ -131,46 +131,55 @@ theorem mem_bindInputsFrom (args : List (Bool × Bool)) :
       have e : start + 1 + i = start + (i + 1) := by omega
       rw [e] at this; exact this
 
-/-- **Partial (what holds today).** Every positional argument that is NOT flagged NCHW keeps its
-    graph input `in_i`, used or not.  (Missing for the full property: NCHW-flagged arguments.) -/
-theorem prune_keeps_positional_partial (args : List (Bool × Bool)) (i : Nat) (used : Bool)
-    (h : args[i]? = some (false, used)) :
-    (⟨.pos i false, used⟩ : GInput) ∈ prune (bindInputs args) := by
-  have hm := mem_bindInputsFrom args 0 i false used h
-  simp only [Nat.zero_add] at hm
-  simp only [prune, pruneWith, List.mem_filter, bindInputs]
-  exact ⟨hm, by simp [alwaysKeep]⟩
-
-/-- Pruning never reorders: the result is a sub-list of the bound inputs. -/
-theorem prune_order (keep : Name → Bool) (ins : List GInput) : (pruneWith keep ins).Sublist ins :=
-  List.filter_sublist
-
-/-- **The full statement is false for the code as it is** (machine-checked witness: the replayed
-    defect `to_onnx(lambda x, y: y*2, [(1,4,4,3),(2,)], inputs_as_nchw=[0])`): an unused NCHW-flagged
-    positional input is dropped. -/
-theorem prune_keeps_positional_REFUTED :
-    ¬ ∀ args : List (Bool × Bool), (prune (bindInputs args)).length = args.length := by
-  intro h
-  have := h [(true, false), (false, true)]
-  revert this
-  decide
-
-/-- With the candidate fix (`alwaysKeepFixed` also matches `in_<i>_nchw`) the full property
-    holds: no positional input is ever dropped or reordered. -/
-theorem pruneFixed_keeps_positional (args : List (Bool × Bool)) :
-    pruneFixed (bindInputs args) = bindInputs args := by
-  have key : ∀ start, pruneWith alwaysKeepFixed (bindInputsFrom start args) = bindInputsFrom start args := by
+/-- **Positional inputs are never dropped or reordered**, used or not, NCHW-flagged or not: for
+    ALL argument lists pruning leaves the bound inputs exactly as they are.  (Full-strength
+    statement; holds for the code since /repo dfda5c9.) -/
+theorem prune_keeps_positional (args : List (Bool × Bool)) :
+    prune (bindInputs args) = bindInputs args := by
+  have key : ∀ start, pruneWith alwaysKeep (bindInputsFrom start args) = bindInputsFrom start args := by
     induction args with
     | nil => intro start; rfl
     | cons a rest ih =>
       intro start
       obtain ⟨n, u⟩ := a
-      simp only [bindInputsFrom, pruneWith, List.filter_cons, alwaysKeepFixed, Bool.true_or, if_true]
+      simp only [bindInputsFrom, pruneWith, List.filter_cons, alwaysKeep, Bool.true_or, if_true]
       congr 1
       exact ih (start + 1)
   exact key 0
 
-example : prune (bindInputs [(true, false), (false, true)]) = [⟨.pos 1 false, true⟩] := by decide
+/-- Element-wise reading: argument `i` keeps its graph input `in_i` / `in_i_nchw`. -/
+theorem prune_keeps_each (args : List (Bool × Bool)) (i : Nat) (nchw used : Bool)
+    (h : args[i]? = some (nchw, used)) :
+    (⟨.pos i nchw, used⟩ : GInput) ∈ prune (bindInputs args) := by
+  rw [prune_keeps_positional]
+  have hm := mem_bindInputsFrom args 0 i nchw used h
+  simpa [bindInputs] using hm
+
+theorem prune_length (args : List (Bool × Bool)) : (prune (bindInputs args)).length = args.length := by
+  rw [prune_keeps_positional]
+  have key : ∀ start, (bindInputsFrom start args).length = args.length := by
+    induction args with
+    | nil => intro _; rfl
+    | cons a rest ih => intro start; obtain ⟨n, u⟩ := a; simp [bindInputsFrom, ih (start + 1)]
+  exact key 0
+
+/-- Pruning never reorders: the result is a sub-list of the bound inputs (any keep rule). -/
+theorem prune_order (keep : Name → Bool) (ins : List GInput) : (pruneWith keep ins).Sublist ins :=
+  List.filter_sublist
+
+/-- **Labelled example about the OLD rule (before dfda5c9), not about the code as it is.**  With
+    `alwaysKeepOld` the statement above was false: the replayed defect
+    `to_onnx(lambda x, y: y*2, [(1,4,4,3),(2,)], inputs_as_nchw=[0])` dropped input 0. -/
+theorem oldRule_dropped_unused_nchw_input :
+    ¬ ∀ args : List (Bool × Bool), (pruneOld (bindInputs args)).length = args.length := by
+  intro h
+  have := h [(true, false), (false, true)]
+  revert this
+  decide
+
+example : pruneOld (bindInputs [(true, false), (false, true)]) = [⟨.pos 1 false, true⟩] := by decide
+example : prune (bindInputs [(true, false), (false, true)]) =
+    [⟨.pos 0 true, false⟩, ⟨.pos 1 false, true⟩] := by decide
 example : (prune (bindInputs [(false, false), (true, true), (false, true)])).length = 3 := by decide
 
 /-! ### runtime parameters -/
